@@ -321,6 +321,7 @@ static void one_case(uint64_t idx)
             if (T[be].backend != be) { report(c->name, be, "backend-not-pinned", idx, &H, -1, NULL, NULL); continue; }
             { static char cn[3][3][40]; if (!cn[c->id][be][0]) snprintf(cn[c->id][be], 40, "runs_%s_%s", c->name, vh_backend_names[be]); *vh_counter_ref(cn[c->id][be]) += 1; }
             if (T[be].canary_damage) report(c->name, be, "canary-damaged", idx, &H, T[be].canary_damage - 1, &T[be], NULL);
+            if (T[be].rejected_wrote) report(c->name, be, "rejected-call-wrote-to-the-output-buffer", idx, &H, T[be].rejected_wrote - 1, &T[be], NULL);
             opi = ctrans_diff(H.ops, H.n, &T[be], &TM, 1, &what);
             if (opi >= 0) {
                 const char *cls = what == 0 ? "return-value" : (since_init_no_counter(&H, opi) ? "stream-mismatch-default-counter-after-init" : "stream-mismatch");
@@ -335,6 +336,7 @@ static void one_case(uint64_t idx)
             chist_run(&H, &T[be], pfx);
             if (T[be].backend >= 0 && T[be].backend != be) report(c->name, be, "backend-not-pinned", idx, &H, -1, NULL, NULL);
             if (T[be].canary_damage) report(c->name, be, "canary-damaged", idx, &H, T[be].canary_damage - 1, &T[be], NULL);
+            if (T[be].rejected_wrote) report(c->name, be, "rejected-call-wrote-to-the-output-buffer", idx, &H, T[be].rejected_wrote - 1, &T[be], NULL);
         }
         VH_COUNT("backend_pairs_compared", nbe - 1);
         for (be = 1; be < nbe; ++be) {
@@ -357,6 +359,7 @@ static void one_case(uint64_t idx)
             chist_run(&H, &T[0], pfx);
             chist_run(&H2, &T2, pfx);
             if (T[0].canary_damage) report(c->name, be, "canary-damaged", idx, &H, T[0].canary_damage - 1, &T[0], NULL);
+            if (T[0].rejected_wrote) report(c->name, be, "rejected-call-wrote-to-the-output-buffer", idx, &H, T[0].rejected_wrote - 1, &T[0], NULL);
             for (i = 0; i < H.n; ++i) {
                 const cop *o = &H.ops[i];
                 char cls[128];
